@@ -564,14 +564,16 @@ def build_input(inf, case):
     for p in phases:
         for f in ("SI", "SR", "LK_PHASE"):
             items.append(("%s:%s" % (f, p), '%s("%s")' % (f, p)))
-    P = [cg.KNOBS_TIGHT]
+    P = [("KNOBS" if case.get("default_knobs") else cg.KNOBS_TIGHT) + "\n -logfile true"]       # the log names basis switches and iteration counts (see stale_rows)
     for sol in case["sols"]:
         P.append(render_solution(sol))
     # built-in columns: the print.cpp read-out path
     sub_s = [s for s in species if s not in (inf.water, inf.eminus)][:: max(1, len(species) // 8)][:8]
     sub_p = phases[:: max(1, len(phases) // 6)][:6]
     so = ["SELECTED_OUTPUT 1", " -reset false", " -state true", " -pH true", " -pe true", " -temperature true", " -alkalinity true",
-          " -ionic_strength true", " -water true", " -charge_balance true", " -high_precision true"]
+          " -ionic_strength true", " -water true", " -charge_balance true"]
+    if not case.get("default_knobs"):
+        so.append(" -high_precision true")       # (also lowers the engine's convergence tolerance to 1e-12)
     if els:
         so.append(" -totals " + " ".join(els))
     if sub_s:
@@ -624,10 +626,16 @@ def decoupling(inf, sol):
     return bool(sol.get("redox")), D
 
 
-def redox_skip(inf, terms, glob, D):
+def redox_skip(inf, terms, glob, D, defined=None):
     """True if the as-written equation cannot be expected to hold in a redox-decoupled initial solution"""
     names = [n for _, n in terms]
     has_carrier = any(n in inf.carriers or n in inf.redox_derived for n in names)
+    if defined is not None and defined in inf.db.master_of_species and (glob or D):
+        # the equation DEFINES the master species of a valence state from other species (core10.dat: "2H+ + 2SO3-2 = S2O5-2 + H2O"
+        # with S2O5-2 = S(+5)): it couples two separately entered mole balances even when no electron is written
+        bases = {m.base for m in inf.db.master_of_species[defined]}
+        if glob or bases & D:
+            return True
     if not has_carrier:
         return False
     if glob:
@@ -646,6 +654,38 @@ def redox_skip(inf, terms, glob, D):
     return False
 
 
+_BLOCK = re.compile(r"^(Initial solution \d+\.|Reaction step \d+\.)", re.M)
+_EVENT = re.compile(r"Switching bases to .*?Iteration (\d+)|Number of iterations: (\d+)")
+
+
+def stale_rows(log):
+    """one flag per calculation (log blocks 'Initial solution n.' / 'Reaction step k.', same order as the selected-output rows):
+    True if the engine's log shows that the accepted model() call did no Newton iteration at all or switched bases in its last
+    iteration, i.e. convergence was declared on the state left by revise_guesses() (whose last step renews the activity
+    coefficients but not the molalities) without a further Newton iteration (known finding, see final report).
+    None if the log cannot be read that way."""
+    if not log:
+        return None
+    parts = _BLOCK.split(log)
+    flags = []
+    for k in range(2, len(parts), 2):
+        last_switch = None
+        flag = False
+        seen_n = False
+        for m in _EVENT.finditer(parts[k]):
+            if m.group(1) is not None:
+                last_switch = int(m.group(1))
+            else:
+                n = int(m.group(2))
+                flag = n == 0 or (last_switch is not None and last_switch == n)     # the last model() call counts
+                last_switch = None
+                seen_n = True
+        if not seen_n:
+            return None
+        flags.append(flag)
+    return flags
+
+
 def check_case(case, ctx):
     inf = info(case["db"])
     db = inf.db
@@ -658,13 +698,16 @@ def check_case(case, ctx):
             raise
         raise Discard("database_load_error:" + case["db"])
     try:
+        I.seti("SetLogStringOn", 1)
         rc = I.run_string(text)
         if rc != 0 or I.errors().strip():
             err = I.errors().strip().split("\n")[0][:60]
             raise Discard("run_error:" + re.sub(r"[0-9.eE+-]+", "#", err)[:48])
         T = I.table(1)
+        log = I.log()
     finally:
         I.close()
+    stale = stale_rows(log)
     nsol = len(case["sols"])
     if T.rows < 1 + nsol:
         # not a statement of the property: a harness expectation (one row per initial solution)
@@ -688,6 +731,11 @@ def check_case(case, ctx):
         if initial and state != "i_soln" or (not initial and state != "react"):
             raise RuntimeError("row %d has state %r" % (r, state))
         sol = case["sols"][r - 1] if initial else None
+        if not case.get("assert_after_basis_switch") and (stale is None or (len(stale) == T.rows - 1 and stale[r - 1])
+                                                          or (len(stale) != T.rows - 1 and any(stale))):
+            # known finding: the state was accepted right after a basis switch (activity coefficients newer than molalities)
+            stats["stale_excluded"] = stats.get("stale_excluded", 0) + 1
+            continue
         check_row(inf, case, sol, v, row, col, meta, stats, "row %d (%s)" % (r, state))
     nel = len(meta["elements"])
     opts = []
@@ -710,6 +758,8 @@ def check_case(case, ctx):
     classes = ["db=" + case["db"], "elements=%d" % min(nel, 9)] + ["opt=" + o for o in opts]
     if stats["redox_skipped"]:
         classes.append("redox_equations_skipped")
+    if stats.get("stale_excluded"):
+        classes.append("excluded:row_accepted_right_after_basis_switch(known_finding)")
     if stats.get("foreign_total_excluded"):
         classes.append("excluded:total_of_element_foreign_to_a_master_species")
     if stats.get("isotope_HO_excluded"):
@@ -787,7 +837,7 @@ def check_row(inf, case, sol, v, row, col, meta, stats, where):
         if any(n not in present and n not in (inf.eminus, inf.water) for _, n in terms):
             stats["absent"] += 1
             continue
-        if sol is not None and redox_skip(inf, terms, glob, D):
+        if sol is not None and redox_skip(inf, terms, glob, D, defined=s):
             stats["redox_skipped"] += 1
             continue
         tot = sum(c * la[n] for c, n in terms)
